@@ -137,7 +137,7 @@ public:
     int segs = b ? g.rng.range(1, 4) : 0;
     int prefill = (int)g.rng.below(b ? (size_t)(k * segs + 1) : 6);
     p.params = {k, segs, prefill};
-    int nt = g.rng.range(2, g.tier ? 4 : 3);
+    int nt = g.rng.range(2, (g.tier || g.rng.chance(20)) ? 4 : 3);
     int maxops = g.tier ? 8 : 6;
     int next = prefill + 1;
     p.threads.resize(nt);
